@@ -4,6 +4,9 @@ package peering
 
 import (
 	"net"
+	"net/netip"
+
+	"github.com/mycoria/mycoria/frame"
 
 	"github.com/mycoria/mycoria/mgr"
 	"github.com/mycoria/mycoria/state"
@@ -48,3 +51,39 @@ func VerifLinkSession(l Link) *state.EncryptionSession {
 	}
 	return nil
 }
+
+// VerifPeeringState drives the handshake state machine of one connection end message by message.
+type VerifPeeringState struct{ s *peeringRequestState }
+
+// VerifNewPeeringState creates the handshake state of one end and its first message.
+func (p *Peering) VerifNewPeeringState(client bool) (*VerifPeeringState, frame.Frame, error) {
+	s, f, err := p.createPeeringRequest(client)
+	if err != nil {
+		return nil, nil, err
+	}
+	return &VerifPeeringState{s}, f, nil
+}
+
+// Handle feeds the next received handshake message (inside the manager, as the setup worker).
+func (v *VerifPeeringState) Handle(in frame.Frame) (response frame.Frame, err error) {
+	workerErr := v.s.peering.mgr.Do("verif handshake", func(w *mgr.WorkerCtx) error {
+		response, err = v.s.handle(in)
+		return nil
+	})
+	if workerErr != nil {
+		return nil, workerErr
+	}
+	return response, err
+}
+
+// Step returns the handshake step (1 waiting for request .. 4 finished).
+func (v *VerifPeeringState) Step() int { return v.s.step }
+
+// RemoteIP returns the peer address the handshake has settled on.
+func (v *VerifPeeringState) RemoteIP() netip.Addr { return v.s.remoteIP }
+
+// Challenge returns this end's challenge.
+func (v *VerifPeeringState) Challenge() []byte { return v.s.challenge }
+
+// Finalize derives the link layer encryption session.
+func (v *VerifPeeringState) Finalize() (*state.EncryptionSession, error) { return v.s.finalize() }
